@@ -244,8 +244,7 @@ def enabled(doc, op):
     if not o or (idx is not None and idx >= len(o)):
         return False
     if t == "del":
-        moved = o if idx is None else [o[idx]]
-        return len(par) - len(moved) >= 1
+        return True                      # also the last field: the paragraph object stays, without text of its own
     if t in ("first", "last"):
         return True
     rname, ridx = _key(op[3])
@@ -421,8 +420,9 @@ def match(cands, dump, nl_liberty):
 
 
 def model_view(doc):
-    """[[(name, value)]] per paragraph"""
-    return [[(f.name, read_value(f.body)) for f in p] for p in pars(doc)]
+    """[[(name, value)]] per paragraph, as a fresh parse of the text sees them (a paragraph that lost all its fields
+    leaves no text behind)"""
+    return [[(f.name, read_value(f.body)) for f in p] for p in pars(doc) if p]
 
 
 # ---------------------------------------------------------------- implementation side
